@@ -64,6 +64,13 @@ func c04Mating(c *Ctx, f *Family, r *rand.Rand) {
 		b = buildFromSnap(s) // mating with an exact (independently built) duplicate
 		c.Count("pairs.duplicate", 1)
 	}
+	// two different parents may carry the same genome id (every species numbers its babies from zero)
+	if a != b && r.Intn(4) == 0 {
+		oldId := b.Id
+		b.Id = a.Id
+		defer func() { b.Id = oldId }()
+		c.Count("pairs.equal_genome_ids", 1)
+	}
 	op := opKind(int(opMateMultipoint) + r.Intn(3))
 	fa, fb := r.Float64()*10, r.Float64()*10
 	ordering := "<"
